@@ -1,7 +1,7 @@
 SPECIFICATION Spec
 CONSTANTS
   NSeg = 2
-  NPart = 2
+  NPart = 1
   TokenCap = 0
   Fmp4 = FALSE
   Variant = "ok"
